@@ -8,12 +8,12 @@ CLAIMED = {
              'logging stub) are lowered from /repo on every run and verified with goto-instrument --dfcc for every '
              'NUL-terminated string shorter than PATH_MAX: level_valid(p) is true exactly when no prefix of the component '
              'sequence has negative depth and all components were visited; PathCat forwards base++p only for such p and accepts '
-             'every such p that fits.  Bounded CBMC (length <= 7) and a native exhaustive run (length <= 9/13) on the real '
+             'every such p that fits; SubFileSystem::init (loop-free, every base text up to 8191 characters) records a configured base as its text, \'/\'-terminated, with a length in 1..PATH_MAX-1 (PathCat\'s precondition), accepts only what the underlay reports as a directory, and records no base only when none is configured.  Bounded CBMC (length <= 7) and a native exhaustive run (length <= 9/13) on the real '
              'level_valid and on the real init() + PathCat for eight bases (absolute, relative, ".", "/"; each path also with the base text in front) with an independent resolver supply counterexamples.  One generated proof per path-taking operation of '
              'SubFileSystem (32, read from subfs.cpp on every run): every path argument passes through a PathCat of this sub-filesystem '
              'and the underlay receives the PathCat result, never the caller\'s pointer.',
         note=TRUST + ' strlen/memcpy are libc stubs; std::string_view == modelled for the empty end() view only; symlink\'s oldname (link content) '
-             'is exempt by design; SubFileSystem::init and directory iteration are not under contract.',
+             'is exempt by design; directory iteration is not under contract.',
         technique='deductive verification: CBMC function + loop contracts (goto-instrument --dfcc) on mechanically lowered real code; '
                   'bounded CBMC + native replay for counterexamples',
         design='§6 C20'),
